@@ -437,6 +437,8 @@ def stepProg (env : Env) (w : World) : Sexp → Option (World × Env × Prog)
       let n ← n.asNat
       some (w, env, forEach (List.range n) fun i =>
         dPost (.probe ((100 + i) * 4 + 3) (.int 1) .done) ;; .probe ((100 + i) * 4 + 3) (.int 2) .done)
+  -- the caller drops one named handle and keeps its subscriptions: ownership is not modelled, the name leaves the environment
+  | .list [.atom "forget", .atom name] => some (w, env.filter (fun p => p.1 != name), .done)
   | .list [.atom "drop"] => some (w, env, .done)
   | s@(.list (.atom "hnext" :: _)) => (parseAction env s).map fun a => (w, env, a 0)
   | s@(.list (.atom "hcomplete" :: _)) => (parseAction env s).map fun a => (w, env, a 0)
